@@ -18,6 +18,10 @@ TRUSTED = [
     "MESSAGE-INTEGRITY, forged responses and 487/403 errors with guessed transaction ids, role-flipping ICE-CONTROLLING, "
     "RTP-like media, spoofed or foreign source addresses) injected from gathering to READY; the application-visible traces "
     "must be identical and every reply to the attacker must be what the gate model allows (400/401/420 or nothing)",
+    "ICE-TCP: separate sessions in which a foreign party opens real loopback TCP connections to an agent's tcp-passive candidate "
+    "before, during and after negotiation and writes RFC 4571 frames (data, STUN-lookalikes, garbage); nothing of it may reach the "
+    "application; half of the UDP sessions gather against a slow / silent scripted STUN server (pending credential-less discovery "
+    "transactions) and the attacker also sends RFC 3489 style cookie-less requests and indications",
     "the cryptographic step (without the password the MAC cannot be produced) is outside Lean and outside the simulation",
 ]
 APP_EV = re.compile(r"t=\d+ (\w+) (state|selected|recv|new-remote-candidate|gathering-done|new-candidate|writable|streams-removed) (.*)")
